@@ -41,8 +41,8 @@ CLAIMED["C08"] = (
     "values are symbolic), bare and under and/or/not, is executed in both real engines and must be false without raising; the helper functions "
     "must equal their meaning over the present fields; the real RecordStreamReader.__iter__ and record_stream over a mixed stream with real "
     "selectors must yield exactly the matching records for all integer field values. The grammar is finite, so bounded model checking decides it completely.",
-    "Outside: 'x in <non-container>', 'not in' in the compiled engine, arithmetic on a missing field. Known finding K1 (compiled '<missing> in <str>') is "
-    "listed in known_findings.json. Stream level uses prepared records instead of the msgpack decoder.",
+    "Outside: 'x in <non-container>', 'not in' in the compiled engine, arithmetic on a missing field. Known findings K1 (compiled '<missing> in <str>') and K6 "
+    "(compiled '<missing> in [.., <another missing>]') are listed in known_findings.json. Stream level uses prepared records instead of the msgpack decoder.",
     "DESIGN.md 3 C08",
 )
 CLAIMED["C09"] = (
@@ -120,7 +120,8 @@ CLAIMED["C06"] = (
     "Python's own parser for the newline slack, and the four delivery channels - is covered by replaying solver witnesses and a hostile-payload battery through the "
     "constructor, a crafted descriptor frame, a JSON descriptor line and an Avro schema with an exec-capture tripwire (concrete side condition, reported as such).",
     "Trusted: sre_parse -> z3 regex translation (validated against re on solver-drawn members/non-members every run). A validator rewritten with constructs the translator "
-    "does not support (str.isidentifier, rstrip) makes the SMT obligations inconclusive; such changes are then only seen by the concrete payload battery.",
+    "does not support (str.isidentifier, rstrip) makes the SMT obligations inconclusive; such changes are then only seen by the concrete payload battery. "
+    "Known finding K5 (a field name declared twice is accepted; the suite builds such a descriptor) is listed in known_findings.json.",
     "DESIGN.md 3 C06",
 )
 
@@ -203,7 +204,8 @@ CLAIMED["C18"] = (
     "bound values of db_insert_record equal the reference mapping over 18 x 18 value kinds; the reader returns every row of every table once, in order, for every reader batch size; "
     "no valid type name is rejected by table_names' WHERE clause and no valid name contains a double quote (all strings). Batteries through the real sqlite3 with an observer connection "
     "and hostile names are concrete side conditions.",
-    "Stand-in: FakeCon / ReadCon (statements the model does not know make the obligation inconclusive). Outside: SQLite's type affinity/storage, real isolation (replayed), duckdb.",
+    "Stand-in: FakeCon / ReadCon (statements the model does not know make the obligation inconclusive). Outside: SQLite's type affinity/storage, real isolation (replayed), duckdb. "
+    "Known finding K7 (type names differing in case only share one table) is listed in known_findings.json.",
     "DESIGN.md 3 C18",
 )
 
